@@ -351,3 +351,29 @@ def guarded(rep, name, fn, *a, **kw):
     except Exception as ex:  # a crash of the code under test outside a declared raises
         rep.harness_errors.append('%s: unexpected %s: %s\n%s' % (name, type(ex).__name__, ex, traceback.format_exc()[-1500:]))
     return None
+
+
+# ---- process-pool fan-out: each task runs in a forked worker with its own sub-report -----------------
+def _worker(job):
+    pid, tier, seed, name, fn, args = job
+    symx.STATS.reset()
+    sub = Report(pid, tier, seed, sub=True)
+    guarded(sub, name, fn, sub, *args)
+    return sub.export()
+
+
+def run_parallel(rep, tasks, workers=None):
+    """tasks: list of (name, fn, args) with fn(sub_report, *args) a module-level function"""
+    import multiprocessing as mp
+    if not tasks:
+        return
+    workers = min(workers or int(os.environ.get('VERIF_WORKERS', '14')), len(tasks))
+    jobs = [(rep.pid, rep.tier, rep.seed, name, fn, tuple(args)) for name, fn, args in tasks]
+    if workers <= 1:
+        for j in jobs:
+            rep.absorb(_worker(j))
+        return
+    ctx = mp.get_context('fork')
+    with ctx.Pool(workers, maxtasksperchild=1) as pool:
+        for ex in pool.imap_unordered(_worker, jobs, chunksize=1):
+            rep.absorb(ex)
